@@ -12,6 +12,8 @@ import (
 	"sort"
 	"strings"
 
+	"github.com/LemoFoundationLtd/lemochain-core/chain/account"
+	"github.com/LemoFoundationLtd/lemochain-core/chain/params"
 	"github.com/LemoFoundationLtd/lemochain-core/chain/types"
 
 	"verif/fx"
@@ -370,6 +372,107 @@ func fixedScenarios(c *run.Ctx) {
 	}
 }
 
+// voteFlow aims at the end-of-block pass that walks a hash map of balance changes (ChangeVotesByBalance): several
+// voters of the same candidate get balance changes of opposite sign and of a size comparable to the candidate's whole
+// tally in one block, and payers (re-)vote after paying in the same block, so that the intermediate sums of the pass
+// differ as much as possible between iteration orders. Additions commute, so every order must give the same block.
+func voteFlow(c *run.Ctx, idx int) {
+	r := run.NewRng(c.Seed, 11, uint64(idx))
+	gcfg := scn.DefaultCfg()
+	gcfg.Fund = 30000000
+	cl := scn.NewCluster(r, fx.WorldCfg{Deputies: 1 + idx%3, Users: 10, SlotMs: 3000}, 4, gcfg)
+	defer cl.Close()
+	g := cl.G
+	U := cl.W.Users
+	seq := uint64(0)
+	// every transaction gets its own expiry, so that no two of them coincide in all fields (a transaction that is
+	// already in the chain is not something the pool offers an honest miner)
+	exp := func() uint64 { seq++; return uint64(cl.W.GenesisTime) + 600 + seq }
+	step := func(cands []scn.Cand, note string) *types.Block {
+		t := cl.NextTime()
+		c.WAL(map[string]interface{}{"voteflow": idx, "height": cl.Head.Height() + 1, "seed": c.Seed})
+		if cl.IsSnapshotNext() {
+			cands = nil
+		}
+		blk := checkStep(c, cl, t, cands, false)
+		if blk == nil {
+			return nil
+		}
+		cl.Adopt(blk)
+		if cl.MustStabiliseSoon() || r.Chance(1, 2) {
+			if !cl.StabiliseAll() {
+				return nil
+			}
+		}
+		c.Stat("voteflow_blocks", 1)
+		c.Case(fmt.Sprintf("voteflow d%d h%d %s", 1+idx%3, blk.Height(), note), len(blk.Txs) > 1, map[string]interface{}{"voteflow": idx, "height": blk.Height(), "shape": note, "included": len(blk.Txs)})
+		return blk
+	}
+	if step(g.Setup(cl.T+1), "setup") == nil {
+		return
+	}
+	cand := []fx.Key{U[0], U[1]}
+	var cs []scn.Cand
+	for _, k := range cand {
+		cs = append(cs, g.C(g.B.Register(k, fx.Profile(k, k.Addr, true, "vf"), params.MinCandidateDeposit, exp()), "register", "ok"))
+	}
+	if step(cs, "register") == nil {
+		return
+	}
+	votes := map[int]int{} // voter user index -> candidate index
+	cs = nil
+	for u := 2; u < 10; u++ {
+		if r.Chance(3, 4) {
+			votes[u] = r.Intn(2)
+			cs = append(cs, g.C(g.B.Vote(U[u], cand[votes[u]].Addr, exp()), "vote", "ok"))
+		}
+	}
+	if step(cs, "votes") == nil {
+		return
+	}
+	for bi := 0; bi < 5; bi++ {
+		cs = nil
+		shape := ""
+		paid := map[int]bool{}
+		for n := r.Range(2, 4); n > 0; n-- {
+			from, to := r.Range(2, 9), r.Range(2, 9)
+			if from == to || paid[from] {
+				continue
+			}
+			paid[from] = true
+			// 50..97 % of what the payer holds at the head
+			bal := account.NewManager(cl.Head.Hash(), cl.Nodes[0].DB).GetAccount(U[from].Addr).GetBalance()
+			amt := new(big.Int).Div(new(big.Int).Mul(bal, big.NewInt(int64(r.Range(50, 97)))), big.NewInt(100))
+			if amt.Sign() <= 0 {
+				continue
+			}
+			cs = append(cs, g.C(g.B.Transfer(U[from], U[to].Addr, amt, exp()), "transfer-large", "any"))
+			shape += "pay,"
+			if r.Chance(2, 3) {
+				// the payer votes after paying, preferably for the candidate the receiver votes for
+				ci := r.Intn(2)
+				if v, ok := votes[to]; ok && r.Chance(3, 4) {
+					ci = v
+				}
+				votes[from] = ci
+				cs = append(cs, g.C(g.B.Vote(U[from], cand[ci].Addr, exp()), "vote-after-paying", "any"))
+				shape += "vote,"
+			}
+			if _, ok := votes[to]; !ok && r.Chance(1, 2) {
+				votes[to] = r.Intn(2)
+				cs = append(cs, g.C(g.B.Vote(U[to], cand[votes[to]].Addr, exp()), "vote-after-receiving", "any"))
+				shape += "rvote,"
+			}
+		}
+		if len(cs) == 0 {
+			continue
+		}
+		if step(cs, shape) == nil {
+			return
+		}
+	}
+}
+
 func runAll(c *run.Ctx) {
 	fx.Quiet()
 	scn.SetParams()
@@ -383,6 +486,9 @@ func runAll(c *run.Ctx) {
 			continue
 		}
 		scenario(c, i)
+		if i%4 == 1 {
+			voteFlow(c, i)
+		}
 	}
 }
 
